@@ -22,7 +22,7 @@ BOUNDS = {
     "quick": "d in {2,3}; N<=3 atoms, F<=2 frames, all line orders; symbolic timestep, bounds, coordinates, extra columns; "
              "type maps over subsets of {1,2,3}; column lists of length 1..2; duck-typed HOOMD frames with symbolic "
              "positions/box (N=2, F<=2)",
-    "thorough": "as quick with N=3 everywhere and F=3 for the column readers",
+    "thorough": "as quick with N=3 everywhere and F=3 for the column readers; log reader: 1..3 sections with 1..3 thermo rows each (row counts are integer symbols concretised by forking; numeric content concrete)",
 }
 STUBS = ["numerals are opaque placeholder tokens ('to written precision' = identity in the symbolic run; the concrete "
          "replay compares at 1e-6)", "HOOMD/DCD files are duck-typed frame objects (the gsd/mdtraj parsers are not run)"]
@@ -212,6 +212,48 @@ def h_gsd(ctx, d, N, F, typeids, dcd, shared=False, twice=False):
                 ctx.oblige(f"pos[{f},{i},{a}]", O.eq(sn.positions[i, a], src[i, a]))
 
 
+def h_log(ctx, K, tail):
+    """LAMMPS log reader: the *structure* of the log is symbolic - the number of thermo rows of each of the K sections is an
+    integer symbol in 1..3 that the engine concretises by forking, so every combination is one explored path; the numeric
+    content is concrete (it goes through pandas' C parser).  Every complete section is returned in full, in order."""
+    ctx.covers("PyMatterSim.reader.simulation_log.read_lammpslog")
+    sl = ctx.repo("PyMatterSim.reader.simulation_log")
+    rows = []
+    for k in range(K):
+        r = ctx.integer(f"rows{k}", lo=1, hi=3)
+        rows.append(ctx.eng.concretize_int(r) if ctx.mode == "sym" else max(1, min(3, int(r))))
+    cols = [["Step", "Temp", "E_pair"], ["Step", "PotEng", "Press", "Volume"], ["Step", "Temp"]]
+    lines = ["LAMMPS (2 Aug 2023)", "units lj", "atom_style atomic", ""]
+    want = []
+    step = 0
+    for k in range(K):
+        c = cols[k % len(cols)]
+        lines += [f"run {100 * (k + 1)}", "Per MPI rank memory allocation (min/avg/max) = 3.1 | 3.1 | 3.1 Mbytes", "   ".join(c) + " "]
+        tab = []
+        for j in range(rows[k]):
+            vals = [step] + [round(0.5 * (k + 1) + 0.125 * j + 0.25 * m, 6) for m in range(1, len(c))]
+            tab.append(vals)
+            lines.append("   " + "   ".join(str(v) for v in vals))
+            step += 50
+        want.append((c, tab))
+        lines += [f"Loop time of 0.{k + 1}2 on 1 procs for {100 * (k + 1)} steps with 64 atoms", "", "Performance: 1.0 tau/day", ""]
+    if tail:
+        lines += ["Total wall time: 0:00:01"]
+    path = os.path.join(ctx.tmpdir(), "log.lammps")
+    with open(path, "w") as fh:
+        fh.write("\n".join(lines) + "\n")
+    res = sl.read_lammpslog(path)
+    ctx.output("nsections", len(res))
+    ctx.oblige(f"every complete section is returned ({K} sections with {rows} rows)", len(res) == K)
+    for k, df in enumerate(res[:K]):
+        c, tab = want[k]
+        ok = list(df.columns) == c and len(df) == len(tab)
+        ctx.oblige(f"section {k}: columns and number of rows", ok)
+        if ok:
+            good = all(abs(float(df[c[m]].values[j]) - float(tab[j][m])) < 1e-9 for j in range(len(tab)) for m in range(len(c)))
+            ctx.oblige(f"section {k}: values in full and in order", good)
+
+
 def cfg_roundtrip(tier, seed):
     N = 2 if tier == "quick" else 3
     return [dict(d=d, N=N, order=list(o)) for d in (2, 3) for o in permutations(range(N))]
@@ -259,4 +301,5 @@ def cfg_gsd(tier, seed):
 
 
 HARNESSES = [H("header_roundtrip", h_roundtrip, cfg_roundtrip), H("centertype", h_center, cfg_center),
-             H("columns", h_columns, cfg_columns), H("hoomd_frames", h_gsd, cfg_gsd)]
+             H("columns", h_columns, cfg_columns), H("hoomd_frames", h_gsd, cfg_gsd),
+             H("lammps_log", h_log, lambda tier, seed: [dict(K=K, tail=t) for K in ((1, 2) if tier == "quick" else (1, 2, 3)) for t in (True, False)])]
